@@ -22,7 +22,11 @@ Permitted(allow, c) == CASE allow = "all"     -> TRUE
                          [] allow = "local"   -> c # "remote"
                          [] allow = "remote"  -> c = "remote"
                          [] allow = "sandbox" -> c = "inside"
-Mechanisms == {"include", "import", "redefine", "override"}
+(* "hint": an xsi:schemaLocation hint on an element of the INSTANCE (a namespace the   *)
+(* schema has not loaded), followed during validation; "mapper": an include whose      *)
+(* location is rewritten by the user's URI mapper - the class is that of the MAPPED    *)
+(* location, the one that is finally opened.                                           *)
+Mechanisms == {"include", "import", "redefine", "override", "hint", "mapper"}
 Spellings  == {"relative", "dotted", "absolute", "fileurl", "encoded"}
 
 VARIABLES allow, main, refs, opened, blocked, loaded, step
